@@ -134,6 +134,8 @@ class _RpcResource:
                     status_code=e.status_code,
                     schema=e.schema,
                     server_id=self._app._server.server_id,
+                    logs=e.logs,
+                    log_batches=e.log_batches,
                 )
             _apply_cookies_to_response(resp, cookies)
         finally:
@@ -165,6 +167,8 @@ class _StreamInitResource:
                     status_code=e.status_code,
                     schema=e.schema,
                     server_id=self._app._server.server_id,
+                    logs=e.logs,
+                    log_batches=e.log_batches,
                 )
                 return
             resp.content_type = _ARROW_CONTENT_TYPE
@@ -201,6 +205,8 @@ class _ExchangeResource:
                     status_code=e.status_code,
                     schema=e.schema,
                     server_id=self._app._server.server_id,
+                    logs=e.logs,
+                    log_batches=e.log_batches,
                 )
                 return
             resp.content_type = _ARROW_CONTENT_TYPE
